@@ -806,3 +806,70 @@ func trueIffUnchanged(info *types.Info, cond ast.Expr, change types.Object) bool
 	v1, ok1 := eval(cond, one)
 	return ok0 && ok1 && v0.Kind() == constant.Bool && v1.Kind() == constant.Bool && constant.BoolVal(v0) && !constant.BoolVal(v1)
 }
+
+// earlyExits: the statements that leave a loop enclosing target before the loop has run to its end — a `break` whose
+// innermost breakable statement is that loop (or that names it by label), a `return` or a `goto` anywhere inside it
+// (function literals excepted). Loops that do not enclose target (a search for one element next to it) are not looked at.
+func earlyExits(root ast.Node, target ast.Node) []ast.Stmt {
+	pm := parentMap(root)
+	var out []ast.Stmt
+	seen := map[ast.Stmt]bool{}
+	for cur := pm[target]; cur != nil; cur = pm[cur] {
+		var body *ast.BlockStmt
+		switch l := cur.(type) {
+		case *ast.ForStmt:
+			body = l.Body
+		case *ast.RangeStmt:
+			body = l.Body
+		}
+		if body == nil {
+			continue
+		}
+		loop := cur
+		label := ""
+		if ls, ok := pm[loop].(*ast.LabeledStmt); ok {
+			label = ls.Label.Name
+		}
+		ast.Inspect(body, func(n ast.Node) bool {
+			switch x := n.(type) {
+			case *ast.FuncLit:
+				return false
+			case *ast.ReturnStmt:
+				if !seen[x] {
+					seen[x] = true
+					out = append(out, x)
+				}
+			case *ast.BranchStmt:
+				leaves := false
+				switch x.Tok {
+				case token.GOTO:
+					leaves = true
+				case token.BREAK:
+					if x.Label != nil {
+						leaves = label != "" && x.Label.Name == label
+					} else {
+						// innermost breakable statement around the break
+						for p := pm[x]; p != nil; p = pm[p] {
+							stop := false
+							switch p.(type) {
+							case *ast.ForStmt, *ast.RangeStmt:
+								leaves, stop = p == loop, true
+							case *ast.SwitchStmt, *ast.TypeSwitchStmt, *ast.SelectStmt:
+								stop = true
+							}
+							if stop {
+								break
+							}
+						}
+					}
+				}
+				if leaves && !seen[x] {
+					seen[x] = true
+					out = append(out, x)
+				}
+			}
+			return true
+		})
+	}
+	return out
+}
